@@ -10,6 +10,7 @@ import (
 	"net"
 	"net/http"
 	"net/url"
+	"sort"
 	"strconv"
 	"strings"
 	"sync"
@@ -24,6 +25,9 @@ type Client struct {
 
 	mu     sync.Mutex
 	counts map[string]int64
+
+	// PagedSizes: every Dump additionally lists each bucket with these maxResults values, following the token chain.
+	PagedSizes []int
 }
 
 // Resp is a complete response (body read to the end).
@@ -450,6 +454,14 @@ type BucketView struct {
 	RawItems   []string
 	Listed     []string
 	Objects    map[string]*ObjView
+	Paged      map[int]*PagedListing // maxResults -> concatenated pages
+}
+
+// PagedListing is a listing followed through its token chain with a small page size.
+type PagedListing struct {
+	Names []string
+	Pages int
+	Err   string
 }
 
 type StoreDump struct {
@@ -477,6 +489,31 @@ func (c *Client) Dump(names map[string][]string, forms func(b, n string) []int) 
 			bv.ListErr = err.Error()
 		} else if trunc {
 			bv.ListErr = "listing did not end after 50 pages"
+		}
+		if bv.ListStatus == 200 {
+			for _, mr := range c.PagedSizes {
+				pl := &PagedListing{}
+				pages, trunc, err := c.ListAll(b, "", "", mr, len(bv.Listed)+5)
+				for _, p := range pages {
+					pl.Names = append(pl.Names, p.Names...)
+					if p.Status != 200 {
+						pl.Err = fmt.Sprintf("page answered %d", p.Status)
+					}
+					if len(p.Names) > mr {
+						pl.Err = fmt.Sprintf("page holds %d > maxResults=%d entries", len(p.Names), mr)
+					}
+				}
+				pl.Pages = len(pages)
+				if err != nil {
+					pl.Err = err.Error()
+				} else if trunc {
+					pl.Err = fmt.Sprintf("token chain did not end within %d pages", len(bv.Listed)+5)
+				}
+				if bv.Paged == nil {
+					bv.Paged = map[int]*PagedListing{}
+				}
+				bv.Paged[mr] = pl
+			}
 		}
 		for _, n := range ns {
 			ov := &ObjView{}
@@ -523,6 +560,10 @@ func (d *StoreDump) Canon(hostFrom, hostTo string) map[string]string {
 	}
 	for b, bv := range d.Buckets {
 		out[b+"\x00"] = fmt.Sprintf("bucket=%d list=%d items=%s", bv.Status, bv.ListStatus, fix(strings.Join(bv.RawItems, "\n")))
+		for _, mr := range c2sorted(bv.Paged) {
+			pl := bv.Paged[mr]
+			out[fmt.Sprintf("%s\x00\x00paged maxResults=%d", b, mr)] = fmt.Sprintf("pages=%d names=%q err=%s", pl.Pages, pl.Names, pl.Err)
+		}
 		for n, ov := range bv.Objects {
 			s := fmt.Sprintf("meta=%d %s", ov.MetaStatus, fix(ov.MetaRaw))
 			if ov.MetaStatus != 200 {
@@ -558,6 +599,15 @@ func DiffCanon(before, after map[string]string) string {
 		}
 	}
 	return ""
+}
+
+func c2sorted(m map[int]*PagedListing) []int {
+	var out []int
+	for k := range m {
+		out = append(out, k)
+	}
+	sort.Ints(out)
+	return out
 }
 
 func md5hex(b []byte) string { return fmt.Sprintf("%x", md5.Sum(b)) }
